@@ -2245,6 +2245,13 @@ class DesignSpace:
             msg = f"The variable {current_name} is not in the design space."
             raise ValueError(msg)
 
+        if new_name == current_name:
+            return
+
+        if new_name in self:
+            msg = f"The variable {new_name} is already in the design space."
+            raise ValueError(msg)
+
         for dictionary in [
             self.normalize,
             self._variables,
